@@ -719,3 +719,36 @@ def _fill(ctx, repo) -> None:
                   f"the tuple appended for an integer chunk size sums to {total.key()}, not to the dimension size {s}",
                   key_detail=norm_text(arg)[:40])
     ctx.require(n_checked >= 2, "fill_in_chunk_sizes: fewer than two integer arms examined")
+
+
+# ---- added after the seeded change C18-seed7: explicit tuple chunks are budgeted by their largest block
+_inner_run_c18 = run
+
+
+def run(ctx) -> None:  # noqa: F811
+    import ast as _ast
+
+    from ..model import call_name as _cn, norm_text as _nt, walk_no_nested as _walk
+
+    ctx.rule("R-TUPLEBOUND", "_auto_chunks accounts an explicit tuple of block sizes by an upper bound of its blocks "
+             "(max(c)): budgeting it by one of its elements lets the blocks of that dimension exceed what the element "
+             "limit was computed for")
+    f = ctx.repo.function("abtem.core.chunks", "_auto_chunks")
+    arms = [i for i in _walk(f.node) if isinstance(i, _ast.If) and "tuple" in _nt(i.test) and "isinstance" in _nt(i.test)]
+    ctx.require(len(arms) >= 1, "_auto_chunks: tuple arm not found")
+    n = 0
+    for arm in arms:
+        tested = [a for a in _ast.walk(arm.test) if isinstance(a, _ast.Call) and _cn(a) == "isinstance"]
+        var = _nt(tested[0].args[0]) if tested else "c"
+        for st in arm.body:
+            for c in _ast.walk(st):
+                if isinstance(c, _ast.Call) and isinstance(c.func, _ast.Attribute) and c.func.attr == "append" and c.args:
+                    n += 1
+                    a = c.args[0]
+                    ok = isinstance(a, _ast.Call) and _cn(a) in ("max", "np.max") and a.args and _nt(a.args[0]) == var
+                    ctx.check(ok, "R-TUPLEBOUND", f"{f.qualname}:{_nt(c.func.value)}", f.loc(c),
+                              f"tuple chunks budgeted by max({var})",
+                              f"`{_nt(c)}` budgets an explicit tuple of block sizes by `{_nt(a)}`, which is not an upper "
+                              "bound of its blocks", key_detail=_nt(c.func.value))
+    ctx.require(n >= 1, "_auto_chunks: no budget entries for tuple chunks found")
+    _inner_run_c18(ctx)
